@@ -55,6 +55,9 @@ CLAIMS["C10"] = dict(technique="Lean 4 refinement proof + closed-form lemmas for
 CLAIMS["C11"] = dict(technique="Lean 4 proofs for every state of the server model: reject-unknown, session-clean, no-leak, frame (non-interference of client records); per-client specification monitor on implementation histories",
     text="Proved for every state: a send to a client without a live session is rejected with no effect; after a disconnect the client's record is the initial one and it has no timer; a later session with the same id starts from the initial per-client state; an event naming client c leaves every other client's record (queue, pending id, context) equal. The per-client specification (isolation by construction) runs over every implementation history of sdisp and l3s (with and without application handlers). Conclusion-on-disconnect happens in the protocol layer (fix b4d2189 made it unconditional).",
     note=DISP_NOTE, **_D)
+CLAIMS["C14"] = dict(technique="Lean 4 proof of the admission decision stated outright (any supported / requested lists, arbitrary handler functions, any credentials, id, origin), negotiation loop proved by induction; differential: real handshakes on loopback against freshly configured real servers",
+    text="Proved: a handshake is admitted iff the auth handler (if set) accepts well-formed basic-auth credentials, the check-client handler (if set) returns true, gorilla's upgrade preconditions hold, the origin check passes, a sub-protocol is negotiable (a non-empty requested one, supported if the server lists any) and the id is not already connected; what is negotiated is the first such protocol in the client's order; a refused client gets HTTP 400/401/403 or close 1002/1008 and triggers no new-client and no message callback; an admitted one triggers exactly one new-client callback. One defect found by this check was repaired (d5ec4cf: empty list element in the sub-protocol header).",
+    note=BASE_NOTE + "gorilla's Upgrade and net/http are trusted dependencies (modelled, differentially exercised).", **_D)
 CLAIMS["C16"] = dict(technique="Lean 4 proofs on the quiescent models (restart_fresh as a state equality, stop_is_silent, always_alive) + differential suites with stop/start at random points",
     text="Proved: in every reachable state Stop returns, drops queue and outstanding request silently, afterwards sends are refused and replies/timers discarded; Stop then Start yields a state equal to a freshly started endpoint. Three defects found by this check were repaired (094ff1f, 68f3322, b4d2189). Partial: the websocket layer's reconnect token (S2) and Stop racing sends below quiescence (S12) are not covered by theorems.",
     note=DISP_NOTE, **_D)
